@@ -532,10 +532,9 @@ func ldsWrites(sp *Spec, inst *insts.Inst) []wrange {
 		return nil
 	}
 	var rs []wrange
-	width := uint64(4)
-	if inst.Data.RegCount >= 2 {
-		width = uint64(4 * inst.Data.RegCount)
-	}
+	// bytes one element really occupies (ds_write_b8 stores one byte: lanes
+	// that hit different bytes of one dword do NOT collide)
+	width := uint64(accessWidth(inst))
 	ai := inst.Addr.Register.RegIndex()
 	for l := 0; l < nLanes; l++ {
 		if !bit(sp.Exec, l) {
@@ -1180,6 +1179,112 @@ func structPerm(r *vh.Rng, kind int) []int {
 	return p
 }
 
+// Value classes whose members compare equal (or are all unordered) without
+// being bit-identical: a handler that caches / compares with float == or keys
+// on "is NaN" across lanes mixes them up.
+var special32 = [][]uint32{
+	{0x00000000, 0x80000000},                                                 // +0.0 -0.0
+	{0x7f800000, 0xff800000},                                                 // +Inf -Inf
+	{0x7fc00000, 0x7fc00001, 0xffc00000, 0x7f800001, 0xffbfffff, 0x7fffffff}, // NaNs, different payloads / sign / signalling
+	{0x00000001, 0x80000001, 0x007fffff, 0x807fffff, 0x00000000, 0x80000000}, // denormals and zeros
+	{0x3f800000, 0xbf800000, 0x00000000, 0x80000000, 0x7f800000, 0xff800000, 0x7fc00000, 0xffc00001, 0x00000001, 0x80000001, 0x40000000}, // mixed
+}
+
+// the same for the high dword of a double (the low dword is 0 or 1)
+var special64hi = [][]uint32{
+	{0x00000000, 0x80000000},
+	{0x7ff00000, 0xfff00000},
+	{0x7ff80000, 0xfff80000, 0x7ff00000, 0xfff00000, 0x7fffffff},
+	{0x00000000, 0x80000000, 0x000fffff, 0x800fffff},
+	{0x3ff00000, 0xbff00000, 0x00000000, 0x80000000, 0x7ff00000, 0xfff00000, 0x7ff80000, 0xfff80000, 0x40000000},
+}
+
+// specialValues fills the vector registers with members of one class,
+// independently per lane and register, so that adjacent active lanes (and
+// active lanes separated by inactive ones) hold values that are == but not
+// identical.  64-bit VGPR sources of the decoded instruction get the class in
+// their high dword.  sched 0..5 is a fixed schedule, sched < 0 random.
+func specialValues(sp *Spec, inst *insts.Inst, r *vh.Rng, sched int) {
+	class := r.Intn(len(special32))
+	execKind, piKind := r.Intn(4), -1
+	switch sched {
+	case 0: // zeros, every lane active, neighbours exchanged
+		class, execKind, piKind = 0, 0, 5
+	case 1: // zeros, every other lane inactive
+		class, execKind, piKind = 0, 1, 3
+	case 2:
+		class, execKind, piKind = 1, 2, 5
+	case 3:
+		class, execKind, piKind = 2, 0, 1
+	case 4:
+		class, execKind, piKind = 3, 2, 5
+	case 5:
+		class, execKind, piKind = 4, 3, -1
+	}
+	switch execKind {
+	case 0:
+		sp.Exec = ^uint64(0)
+	case 1:
+		sp.Exec = 0x5555555555555555 << uint(r.Intn(2))
+	case 2:
+		sp.Exec = r.U64() | r.U64()
+	case 3:
+		sp.Exec = r.U64()
+	}
+	c32, c64 := special32[class], special64hi[class]
+	alternate := sched >= 0 && sched <= 1 // strict +0 / -0 alternation along the lanes
+	for l := 0; l < nLanes; l++ {
+		for k := range sp.VGPR[l] {
+			if alternate {
+				sp.VGPR[l][k] = c32[(l+k)%len(c32)]
+			} else {
+				sp.VGPR[l][k] = c32[r.Intn(len(c32))]
+			}
+		}
+	}
+	for _, o := range []*insts.Operand{inst.Src0, inst.Src1, inst.Src2} {
+		if o == nil || o.OperandType != insts.RegOperand || !o.Register.IsVReg() || o.RegCount != 2 {
+			continue
+		}
+		ri := o.Register.RegIndex()
+		if ri+1 >= nVRegs {
+			continue
+		}
+		for l := 0; l < nLanes; l++ {
+			sp.VGPR[l][ri] = uint32(r.Intn(4) / 3) // mostly 0, sometimes 1
+			if alternate {
+				sp.VGPR[l][ri], sp.VGPR[l][ri+1] = 0, c64[l%len(c64)]
+			} else {
+				sp.VGPR[l][ri+1] = c64[r.Intn(len(c64))]
+			}
+		}
+	}
+	if piKind == 5 && r.Bool() {
+		// exchange neighbouring ACTIVE lanes (the neighbours of a lane may be inactive)
+		p := make([]int, nLanes)
+		for i := range p {
+			p[i] = i
+		}
+		prev := -1
+		for i := 0; i < nLanes; i++ {
+			if !bit(sp.Exec, i) {
+				continue
+			}
+			if prev < 0 {
+				prev = i
+			} else {
+				p[prev], p[i] = i, prev
+				prev = -1
+			}
+		}
+		sp.Perm = p
+		return
+	}
+	sp.Perm = structPerm(r, piKind)
+}
+
+const specialScheduled = 6
+
 // accessWidth: bytes of one element a lane moves (the stride of a "coalesced"
 // access), from the instruction name.
 func accessWidth(inst *insts.Inst) uint32 {
@@ -1274,8 +1379,11 @@ func contiguousCase(sp *Spec, inst *insts.Inst, r *vh.Rng, sched int) {
 		sigmaKind, piKind = 1, 1
 	case 4:
 		piKind = 2
-	case 5: // dword stride whatever the width (sub-dword and multi-dword ops)
+	case 5: // dword stride for multi-dword ops; stride 2 for byte ops (every other byte of a dword)
 		stride, piKind = 4, 0
+		if w == 1 {
+			stride = 2
+		}
 	case 6: // partial EXEC: a prefix, end lanes of the active range kept
 		exec, piKind = (uint64(1)<<uint(8+r.Intn(56)))-1, 0
 	case 7: // partial EXEC: one middle lane off
@@ -1386,6 +1494,13 @@ func genVectorN(h *Handler, r *vh.Rng, k int) Spec {
 			prepareAddresses(&sp, inst, r)
 		}
 		sp.Perm = randPerm(r)
+		if inst != nil && h.Fmt != "flat" && h.Fmt != "ds" && !h.Excpt {
+			if k >= 0 && k < specialScheduled {
+				specialValues(&sp, inst, r, k)
+			} else if r.Intn(4) == 0 {
+				specialValues(&sp, inst, r, -1)
+			}
+		}
 		if inst != nil && (h.Fmt == "flat" || h.Fmt == "ds") && !h.Excpt {
 			if k >= 0 && k < contigScheduled {
 				contiguousCase(&sp, inst, r, k)
